@@ -197,7 +197,7 @@ func genXML(t *tape.Tape, o GenOpts) *World {
 			w.SetTag("xml.attribute-filter", "1")
 		}
 	}
-	if sh.SkipValue != "" && !sh.NumericFilter && t.Chance("xml.two-filters", 1, 4) {
+	if o.TwoFilters && sh.SkipValue != "" && !sh.NumericFilter && t.Chance("xml.two-filters", 1, 3) {
 		// two filters on the last step instead of one condition joined by 'and'; with attributes the
 		// first of the two is one that is decided the moment the element is opened
 		if useAttr {
@@ -376,7 +376,7 @@ func genJSON(t *tape.Tape, o GenOpts) *World {
 	}
 	// a stream of top-level values, one per record (NDJSON), the top-level value being the target;
 	// drawn here, applied below (the library as it stands reads the first value and refuses the rest)
-	if sh.SkipValue != "" && !sh.NumericFilter && t.Chance("json.two-filters", 1, 4) {
+	if o.TwoFilters && sh.SkipValue != "" && !sh.NumericFilter && t.Chance("json.two-filters", 1, 3) {
 		target += "[" + fn[1] + " != 'no-such-value']"
 		w.SetTag("target.two-filters-on-the-last-step", "1")
 	}
